@@ -468,7 +468,7 @@ class Fn:
         else:
             d = self.single_def(local)
             if d is None:
-                r = ('var', local)
+                r = self._bool_select(local, depth)
             elif d[0] == 'call':
                 t = d[2]
                 self._expr_cache[key] = ('var', local)  # break cycles
@@ -484,6 +484,38 @@ class Fn:
                 r = self.expr_of_rvalue(d[3], depth - 1)
         self._expr_cache[key] = r
         return r
+
+    def _bool_select(self, local, depth):
+        """a bool temporary assigned a constant on some arms and one computed value on another
+        (`let x = match o { Some(v) => f(v), None => false }`, the lowering of `a && b`, `matches!`):
+        ('bsel', c, E) = "the value is the constant c, or E as computed at its definition"."""
+        if self.locals[local][0] != 'bool' or (1 <= local <= self.argc):
+            return ('var', local)
+        mbs = self._expr_cache.get('__mbs__')
+        if mbs is None:
+            mbs = self.mut_borrowed_scalars()
+            self._expr_cache['__mbs__'] = mbs
+        if local in mbs:
+            return ('var', local)
+        ds = self.defs.get(local, [])
+        consts, others = set(), []
+        for d in ds:
+            if d[0] == 's' and d[3][0] == 'use' and d[3][1][0] == 'k' and d[3][1][3] in (0, 1):
+                consts.add(bool(d[3][1][3]))
+            elif d[0] in ('s', 'call'):
+                others.append(d)
+            else:
+                return ('var', local)
+        if len(others) != 1 or len(consts) != 1:
+            return ('var', local)
+        d = others[0]
+        self._expr_cache[local] = ('var', local)  # break cycles
+        if d[0] == 'call':
+            t = d[2]
+            e = ('call', t['fn'], tuple(self.expr_of_op(a, depth - 1) for a in t['a']), d[1])
+        else:
+            e = self.expr_of_rvalue(d[3], depth - 1)
+        return ('bsel', list(consts)[0], e)
 
     def expr_of_place(self, place, depth=24):
         e = self.expr_of_local(place[0], depth)
@@ -1037,6 +1069,19 @@ def resolve_switch(facts, fn, bi):
             lab[b] = (v != 0) ^ neg if b not in lab else None
         if other not in lab:
             lab[other] = (not neg) if all(v == 0 for v, _ in ts) else (neg if all(v != 0 for v, _ in ts) else None)
+        # bool temporary that is a constant c on some arms and E on one: only the edge "value != c" says something about E
+        hops = 0
+        while e[0] == 'bsel' and hops < 4:
+            hops += 1
+            c, inner = e[1], e[2]
+            lab = {b: (None if (l is None or l is c) else l) for b, l in lab.items()}
+            e = inner
+            flip = False
+            while e[0] == 'un' and e[1] == 'Not':
+                flip = not flip
+                e = e[2]
+            if flip:
+                lab = {b: (None if l is None else (not l)) for b, l in lab.items()}
         # query calls on Option/Result/Poll
         if e[0] == 'call' and e[1] in BOOL_QUERIES and e[2]:
             yes, no = BOOL_QUERIES[e[1]]
@@ -1397,16 +1442,22 @@ def assume_scan(facts, fn, oracle, cap=256):
         sw = sws.get(bi)
         if sw is None:
             return us
+        t = fn.term(bi)
+        l = op_local(t['o'])
+        if l is not None and t['ty'] == 'bool':
+            v = dict(us).get(l)
+            if v is not None:
+                # the tracked constant decides the raw switch
+                tg = [b for val, b in t['ts'] if (val != 0) == v]
+                target = tg[0] if tg else t['else']
+                return us if s == target else None
         lab = sw.labels.get(s)
-        if sw.kind == 'bool' and sw.subject[0] == 'var' and lab is not None:
-            v = dict(us).get(sw.subject[1])
-            if v is not None and v != lab:
-                return None
-            return us
         sel = oracle(sw)
         if sel is not None:
             forced[0] += 1
-            if lab is None or not sel(lab):
+            if lab is not None and not sel(lab):
+                return None
+            if lab is None and not any(l2 is None for b2, l2 in sw.labels.items() if b2 != s) and not any(l2 is not None and sel(l2) for l2 in sw.labels.values()):
                 return None
         return us
 
